@@ -61,7 +61,7 @@ def gen_object(rnd):
         t, v = any_time(rnd), any_value(rnd)
         return kind, 'enc point %d %016x' % (t, v), be32(t) + be64(v)
     if kind == 'points':
-        n = rnd.pick([0, 1, 2, 3, 7, rnd.randint(0, 40)])
+        n = rnd.pick([0, 1, 2, 3, 7, rnd.randint(0, 40), rnd.randint(0, 40), rnd.pick([255, 256, 257, 511, 512, 513, 600, 1023, 1024, 1025, 1500])])
         pts = [(any_time(rnd), any_value(rnd)) for _ in range(n)]
         line = 'enc points %d %s' % (n, ' '.join('%d %016x' % p for p in pts))
         return kind, line.strip(), be64(n) + b''.join(be32(t) + be64(v) for t, v in pts)
